@@ -1662,6 +1662,7 @@ func updateArrayIndex(v []any, i int, path []any, n any, a allocator) (any, erro
 		if i < c {
 			if i >= l {
 				v = v[:i+1]
+				clear(v[l:i])
 			}
 			v[i] = u
 			return v, nil
